@@ -40,7 +40,7 @@ func (check) Cases(tier string) int {
 }
 
 func (check) Rule() string {
-	return "one data tree per case (top-level dictionary, keys a,b,c repeated at every depth, depth 3 (1/8: 5), lists up to 3 (1/8: 6) wide, leaves from gen.Prims plus Go ints/uints/floats of all widths, nil, {}, []; every case adds 9 freshly drawn numbers of random Go types to the leaf pool (float32/float64 from random bit patterns, short decimal fractions, integral and scaled normal values; integers over the whole range of their width) and gives 1/3 of the all-leaf lists and 1/6 of the all-leaf dictionaries one random element type so that []T, [N]T, *[N]T, map[string]T are frequent; 3/4 of the cases insist on nested containers) given (1) in ~13 Go representations (map[string]interface{}, map[interface{}]interface{}, reflect.StructOf structs with renaming tags / inline struct and map groups / ignored fields / typed nil fields, map[string]T, []T, [N]T, *[N]T, map[string]map, []map, pointers to maps, structs and primitives, pointers to pointers, *Config built from another representation, a Child handle, maps holding *Config or Config values, a per-node random mixture; in the first 3 cases of a run also a top-level Config passed by value), with and without PathSep; the structs of the per-node carriers are written under a random tag name (config, json, cfg, yaml) selected by the StructTag option of the call, and a third of their fields carry a second tag of another name that names, ignores or inlines the field differently; (2) unpacked into map[string]interface{} and fed back (canonical equality and VerifWalk structure equality, wiring of every node); (3) in ~4 random partial flattenings into dotted keys with PathSep(\".\") (each dictionary edge folded or nested, sub-trees divided at any depth between several dotted keys and a nested rest, dotted keys inside nested maps, complete lists spelled by numeric positions) each carried by 1-2 of: map, interface-keyed map, typed map, struct tags, mixture; (4) in 2 map-carried duplicate constructions (a: one leaf dotted and nested / two partial spellings of its path; b: dotted key below a primitive defined flat, nested or dotted; c: dotted list position plus the list, flat or nested) embedded in the tree at depth 0-2, each built 40 times with permuted insertion order, and 1 deterministic struct-carried duplicate (same tag twice, inline struct/map vs named field, dotted tag vs nested field, dotted tag below a scalar field; both declaration orders); (5) as one run-time struct type (nested, by value/pointer) whose fields carry 2-3 tag sets at once, each field independently named (tree key, other key, fresh, dotted) / inlined / ignored under each tag set, normalised 3-5 times in a row while switching the StructTag option (default tag included) and the form (value, pointer, inside a map, inside []interface{}, element of []T and of map[string]T; NewFrom or Merge into an empty config): every call must give the tree its own tag set describes; a quarter of the dictionary valued fields hold an existing Config (named or inlined); (6) with one dictionary S built once as ONE Go value (root *Config, child handle, Config by value, *struct, *map, map, interface-keyed map, struct) and used under 2-3 keys of the tree and twice in a list, some places extended by dotted sibling keys into S's namespace (also below a dictionary of S) or by a second struct field of the same name, carried by a struct in both declaration orders or a map and normalised 2-3 times in a row. Everywhere: inline groups of struct carriers also arrive as *Config / Config by value / interface{} holding *Config; every representation and flattening is normalised a second time from the same Go value (same data, same stored structure); every *Config inside an input is compared with its content, parent and path before the call; flattenings divide dictionaries with nil placeholders (a setting given in one part is nil in the other) and lists by position (some positions dotted, nil placeholders or a shorter list in the nested part); struct and mixed carriers are run in both declaration orders. A fifth of the cases use the key pool a,b,c,\"\" (the empty name: dotted spellings beginning or ending with the separator; never as a struct tag). Lists of the tree are also handed in as the top-level value ([]interface{}, typed, *[]interface{}, [N]interface{}, list *Config; unpacked into []interface{} and fed back). Struct carriers get, 1 in 16, an inline field holding nil (nil interface, nil map, nil *struct, nil *Config, nil *map) and lists are, 1 in 12, carried by a struct whose only field is an inlined list Config. Every 60th case adds (7) one wide tree of 300..40000 primitives (log-uniform; 7 shapes) read in generic, typed, interface-keyed, Config-valued, top-level and completely dotted form, with the elements copied while growing lists (hook grow) bounded linearly, and every 60th case (8) one chain of 20..30000 dictionaries (log-uniform) spelled nested, as one dotted key and in two mixtures: same outcome (accepted with the same data, or refused) for every spelling; the first 3 cases of a run read nil pointers (to map, struct, Config, interface) as the top-level value. Non-trivial = tree with >= 2 container levels and >= 3 primitive leaves; distinct = distinct tree."
+	return "one data tree per case (top-level dictionary, keys a,b,c repeated at every depth, depth 3 (1/8: 5), lists up to 3 (1/8: 6) wide, leaves from gen.Prims plus Go ints/uints/floats of all widths, nil, {}, []; every case adds 9 freshly drawn numbers of random Go types to the leaf pool (float32/float64 from random bit patterns, short decimal fractions, integral and scaled normal values; integers over the whole range of their width) and gives 1/3 of the all-leaf lists and 1/6 of the all-leaf dictionaries one random element type so that []T, [N]T, *[N]T, map[string]T are frequent; 3/4 of the cases insist on nested containers) given (1) in ~13 Go representations (map[string]interface{}, map[interface{}]interface{}, reflect.StructOf structs with renaming tags / inline struct and map groups / ignored fields / typed nil fields, map[string]T, []T, [N]T, *[N]T, map[string]map, []map, pointers to maps, structs and primitives, pointers to pointers, *Config built from another representation, a Child handle, maps holding *Config or Config values, a per-node random mixture; in the first 3 cases of a run also a top-level Config passed by value), with and without PathSep; the structs of the per-node carriers are written under a random tag name (config, json, cfg, yaml) selected by the StructTag option of the call, and a third of their fields carry a second tag of another name that names, ignores or inlines the field differently; (2) unpacked into map[string]interface{} and fed back (canonical equality and VerifWalk structure equality, wiring of every node); (3) in ~4 random partial flattenings into dotted keys with PathSep(\".\") (each dictionary edge folded or nested, sub-trees divided at any depth between several dotted keys and a nested rest, dotted keys inside nested maps, complete lists spelled by numeric positions) each carried by 1-2 of: map, interface-keyed map, typed map, struct tags, mixture; (4) in 2 map-carried duplicate constructions (a: one leaf dotted and nested / two partial spellings of its path; b: dotted key below a primitive defined flat, nested or dotted; c: dotted list position plus the list, flat or nested) embedded in the tree at depth 0-2, each built 40 times with permuted insertion order, and 1 deterministic struct-carried duplicate (same tag twice, inline struct/map vs named field, dotted tag vs nested field, dotted tag below a scalar field; both declaration orders); (5) as one run-time struct type (nested, by value/pointer) whose fields carry 2-3 tag sets at once, each field independently named (tree key, other key, fresh, dotted) / inlined / ignored under each tag set, normalised 3-5 times in a row while switching the StructTag option (default tag included) and the form (value, pointer, inside a map, inside []interface{}, element of []T and of map[string]T; NewFrom or Merge into an empty config): every call must give the tree its own tag set describes; a quarter of the dictionary valued fields hold an existing Config (named or inlined); (6) with one dictionary S built once as ONE Go value (root *Config, child handle, Config by value, *struct, *map, map, interface-keyed map, struct) and used under 2-3 keys of the tree and twice in a list, some places extended by dotted sibling keys into S's namespace (also below a dictionary of S) or by a second struct field of the same name, carried by a struct in both declaration orders or a map and normalised 2-3 times in a row. Everywhere: inline groups of struct carriers also arrive as *Config / Config by value / interface{} holding *Config; every representation and flattening is normalised a second time from the same Go value (same data, same stored structure); every *Config inside an input is compared with its content, parent and path before the call; flattenings divide dictionaries with nil placeholders (a setting given in one part is nil in the other) and lists by position (some positions dotted, nil placeholders or a shorter list in the nested part); struct and mixed carriers are run in both declaration orders. A fifth of the cases use the key pool a,b,c,\"\" (the empty name: dotted spellings beginning or ending with the separator; never as a struct tag). Lists of the tree are also handed in as the top-level value ([]interface{}, typed, *[]interface{}, [N]interface{}, list *Config; unpacked into []interface{} and fed back). Struct carriers get, 1 in 16, an inline field holding nil (nil interface, nil map, nil *struct, nil *Config, nil *map) and lists are, 1 in 12, carried by a struct whose only field is an inlined list Config. Every 60th case adds (7) one wide tree of 300..40000 primitives (log-uniform; 7 shapes) read in generic, typed, interface-keyed, Config-valued, top-level and completely dotted form, with the elements copied while growing lists (hook grow) bounded linearly, and every 60th case (8) one chain of 20..30000 dictionaries (log-uniform) spelled nested, as one dotted key and in two mixtures: same outcome (accepted with the same data, or refused) for every spelling; the first 3 cases of a run read nil pointers (to map, struct, Config, interface) as the top-level value. (10) The tree plus 1-2 more empty containers is rendered twice with identical choices and no dotted keys - every empty list and dictionary allocated with length 0 / every one nil (generic, typed []T and map[string]T of 8 element types, behind a pointer, as a typed struct field, as element of [][]T and [N][]T) - and the two configs are compared exactly (unpacked data with nil, {} and [] kept apart; kind, sizes and list-ness of every stored node). Non-trivial = tree with >= 2 container levels and >= 3 primitive leaves; distinct = distinct tree."
 }
 
 func (check) Assumptions() []string {
@@ -51,6 +51,7 @@ func (check) Assumptions() []string {
 		"duplicates use two non-nil primitive values; a nil definition and two objects with disjoint keys are not duplicates and are not generated as such; the error is accepted if Reason() is or wraps ErrDuplicateKey, wording and the blamed key are not compared",
 		"map iteration order is not controlled: each map-carried duplicate construction is rebuilt 40 times with permuted insertion order and judged on the set of outcome classes seen (order dependence itself is C09)",
 		"VarExp off: strings containing $ { } . , are plain data",
+		"what is stored for an empty list or dictionary is not pinned (nil == {} == []), but a nil slice / nil map and a slice / map of length 0 are the same container for Go and must be stored alike; a nil POINTER is nil, not an empty container, and is not part of that comparison",
 		"EnableNumKeys is not used and names never look like numbers (C20); dotted positions are used up to MaxIdx only (the wide dotted form passes MaxIdx explicitly)",
 		"whether a tree is too deep to be accepted is not judged (a limit is the library's decision), only that every spelling of the same chain gets the same decision",
 		"cost: only the number of list elements copied while growing lists is bounded (8 per element of the input + 64 per list + 256), measured where the order of insertion is fixed (not for dotted positions carried by a map)",
@@ -1882,6 +1883,7 @@ func (check) Run(seed int64, tier string, idx int, verbose bool) harness.Result 
 	if idx%60 == 37 {
 		deepDesc = k.deep()
 	}
+	twins := k.emptyTwins()
 	views := k.tagViews()
 	shared := k.sharedValues()
 	flat := k.flattenings(4)
@@ -1892,7 +1894,7 @@ func (check) Run(seed int64, tier string, idx int, verbose bool) harness.Result 
 	dups = append(dups, k.structDuplicate(structDups[r.Intn(len(structDups))]))
 
 	if idx < 2 || verbose {
-		s := map[string]interface{}{"tree": t.String(), "canonical": k.want, "flattenings": flat, "duplicates": dups, "multi_tag_struct": views, "shared_value": shared, "wide": wideDesc, "deep": deepDesc}
+		s := map[string]interface{}{"tree": t.String(), "canonical": k.want, "flattenings": flat, "duplicates": dups, "multi_tag_struct": views, "shared_value": shared, "wide": wideDesc, "deep": deepDesc, "empty_container_twins": twins}
 		if idx < 2 {
 			res.Sample = s
 		}
